@@ -450,6 +450,19 @@ fn long_nests(tier: Tier) -> Vec<(String, Vec<Lp>)> {
         out.push((format!("nest 00 2x{}", n), vec![mk(0, 1, 2, 0, vec![mk(0, 2, n, 0, vec![])])]));
         out.push((format!("if1 around 0 x{} with leaf if1", n), vec![Lp::I(1, vec![mk(0, 1, n, 1, vec![])])]));
     }
+    // three and four loops inside each other, the innermost one making thousands of passes in every
+    // round of the ones around it (every combination of while and for/in); and the long loop outermost
+    for n in tier.pick(vec![7000usize], vec![7000usize, 20_000, 70_000]) {
+        for a in 0..2u8 {
+            for b in 0..2u8 {
+                for c in 0..2u8 {
+                    out.push((format!("nest {}{}{} 2x2x{}", a, b, c, n), vec![mk(a, 1, 2, 0, vec![mk(b, 2, 2, 0, vec![mk(c, 3, n, 0, vec![])])])]));
+                    out.push((format!("nest {}{}{} {}x2x2", a, b, c, n), vec![mk(a, 1, n, 0, vec![mk(b, 2, 2, 0, vec![mk(c, 3, 2, 0, vec![])])])]));
+                }
+            }
+            out.push((format!("nest {}000 2x2x2x{}", a, n), vec![mk(a, 1, 2, 0, vec![mk(0, 2, 2, 0, vec![mk(0, 3, 2, 0, vec![mk(0, 4, n, 1, vec![])])])])]));
+        }
+    }
     out
 }
 
@@ -704,7 +717,7 @@ pub fn crash_sig(_case: &Value, kind: &str) -> String {
     kind.to_string()
 }
 
-pub const RULE: &str = "programs: every well-nested forest of blocks {if with 0-2 elseif and optional else, while, for-in} with 1..N blocks and depth <= 3, an emit before / inside / after every block, leaf bodies with and without an emit, condition forms {value ${c}, ${c} and ${d}, ${c} or ${d} and ${e}, command `ans`, negated command `not ans`} uniform and rotating; single-block programs with the full product of every spelling of every keyword (alias, block-specific end, generic end, full command name), larger ones with rotated spellings so that every keyword occurrence meets each of its spellings; for every program every assignment of truth values to condition evaluations and of lengths {0,1,2} to for-in arrays with a bounded number of deviations from the default (false / empty) within a horizon of choice points. Plus long-running loop nests (while / for-in, single, nested two and three deep, two inner loops in sequence, an inner loop inside a branch with and without branches after it, a small if-block (no else / else taken / last elseif taken) in every iteration of a long loop that sits in a branch of an if / if-else / elseif chain whose later branches must not run; iteration counts {0,1,40,70,300} quick, up to 5000 thorough, plus a 150000-iteration (thorough 600000) loop inside a loop and inside an if with an else; generic and block-specific end) whose counters and exit trace are compared with the same nest walked in Rust. Every execution on the real runner is compared with a tree-walking interpreter of the same AST run on the same answers: emit trace with loop-variable values and final variables (loop variables after their loop and handle names masked). evaluations = rendered programs; transitions = executions; states = distinct (trace length, deviations) classes Library calls in bodies: while / for / if / else / elseif / function / three nested blocks around each of 9 calls of library commands that are scripts with blocks of their own, the block moved down the script by 0..20 (thorough 60) lines so that its end lines meet every line index, closed by `end` and by the specific end command: iteration counts, branch taken, result of the call The library calls include three that end with an error (array_join / set_from_array / array_concat on something that is no array)";
+pub const RULE: &str = "programs: every well-nested forest of blocks {if with 0-2 elseif and optional else, while, for-in} with 1..N blocks and depth <= 3, an emit before / inside / after every block, leaf bodies with and without an emit, condition forms {value ${c}, ${c} and ${d}, ${c} or ${d} and ${e}, command `ans`, negated command `not ans`} uniform and rotating; single-block programs with the full product of every spelling of every keyword (alias, block-specific end, generic end, full command name), larger ones with rotated spellings so that every keyword occurrence meets each of its spellings; for every program every assignment of truth values to condition evaluations and of lengths {0,1,2} to for-in arrays with a bounded number of deviations from the default (false / empty) within a horizon of choice points. Plus long-running loop nests (while / for-in, single, nested two and three deep, two inner loops in sequence, an inner loop inside a branch with and without branches after it, a small if-block (no else / else taken / last elseif taken) in every iteration of a long loop that sits in a branch of an if / if-else / elseif chain whose later branches must not run; iteration counts {0,1,40,70,300} quick, up to 5000 thorough, plus a 150000-iteration (thorough 600000) loop inside a loop and inside an if with an else; generic and block-specific end) whose counters and exit trace are compared with the same nest walked in Rust. Every execution on the real runner is compared with a tree-walking interpreter of the same AST run on the same answers: emit trace with loop-variable values and final variables (loop variables after their loop and handle names masked). evaluations = rendered programs; transitions = executions; states = distinct (trace length, deviations) classes Library calls in bodies: while / for / if / else / elseif / function / three nested blocks around each of 9 calls of library commands that are scripts with blocks of their own, the block moved down the script by 0..20 (thorough 60) lines so that its end lines meet every line index, closed by `end` and by the specific end command: iteration counts, branch taken, result of the call The library calls include three that end with an error (array_join / set_from_array / array_concat on something that is no array) Nests of three and four loops inside each other (every combination of while and for/in) whose innermost loop makes 7000 (thorough 20000, 70000) passes in every round of the loops around it, and the same with the long loop outermost.";
 pub const ASSUMPTIONS: &[&str] = &["ill-nested programs, arrays modified while iterated and jumps into blocks are outside the property", "value-form conditions of an if/elseif chain are computed in front of the block"];
 pub const EXHAUSTIVE: bool = true;
 pub const WALL_CAP_S: (u64, u64) = (55, 1500);
